@@ -307,8 +307,10 @@ def check_play(case, obs, o, which):
             sig = "categories-not-sorted" if sorted(cats) == want else "wrong-categories"
             bad(sig, "result categories %s, the ids' categories sorted: %s" % (cats, want))
     else:
+        # the order in lookup mode (request order) is compared by the correspondence only: any fixed order is
+        # "deterministic"; the predicate demands the requested categories, each once
         want = list(dict.fromkeys(case["categories"]))
-        if cats != want:
+        if sorted(cats) != sorted(want):
             bad("wrong-categories", "result categories %s, requested %s" % (cats, want))
     # ---- tuner failure is that category's result, and only that category's
     for c in cats:
@@ -399,6 +401,13 @@ def check_play(case, obs, o, which):
         for c in asked:
             if c not in cats:
                 bad("lookup-not-by-category", "a lookup asked for category %s, requested were %s" % (c, cats))
+    # ---- every run of a playback function (also outside the consumption of the generators) is accounted for
+    runs = [tuple(e) for e in o.get("journal", [])]
+    produced = [tuple(e) for c in cats for cm in results[c].get("cmps", []) if "played" in cm for e in cm["played"]]
+    if sorted(runs) != sorted(produced):
+        extra = sorted(set(runs) - set(produced)) or [e for e in set(runs) if runs.count(e) > produced.count(e)]
+        bad("played-more-than-once", "playback functions ran %d times but the comparisons account for %d runs; "
+            "unaccounted: %s" % (len(runs), len(produced), extra[:4]))
     if not o.get("recorder_idle", True):
         bad("recorder-not-idle", "the recorder still holds playback state after the run")
     return fails
